@@ -147,14 +147,17 @@ def gen_expr(rng, restricted=False, closed=False, symbols=False):
         names = ["V", "t1", "t2", "Y", "f", "c"]
     if closed:
         names = ["V", "t1", "t2"]
-    g = TermGen(rng, spaces="ov", n_tensors=(1, 3), max_contracted=3,
-                names=names, exclude=(), deltas=(0, 1) if not restricted else (0, 0),
+        if rng.random() < 0.5:
+            names = ["V", "t1", "t1cc"]       # products of three four-index tensors
+    g = TermGen(rng, spaces="ov", n_tensors=(1, 3) if not closed else rng.choice([(2, 3), (3, 3), (3, 3)]),
+                max_contracted=3 if not closed else 5,
+                names=names, exclude=(), deltas=(0, 1) if not (restricted or closed) else (0, 0),
                 pool_size=5)
-    nT = rng.randint(0, 3)
+    nT = rng.randint(0, 3) if not closed else rng.randint(2, 4)
     T, seen = [], set()
     for _ in range(nT):
         sp = rng.choice("ov")
-        nm = rng.choice(POOL[sp][:3])
+        nm = rng.choice(POOL[sp][:3 if not closed else 4])
         if nm not in seen:
             seen.add(nm)
             T.append(get_symbols(nm)[0])
@@ -384,7 +387,7 @@ def main():
     n = 250 if quick else 3750
     items = [(base + k, modes[k % 5]) for k in range(n)]
     results = pmap(run_integrate, items, limit=200 if quick else 900)
-    nb = 60 if quick else 600
+    nb = 150 if quick else 1500
     bitems = [("expr" if k % 3 else "itmd", base + 9000 + k) for k in range(nb)]
     bres = pmap(run_blocks, bitems, limit=300 if quick else 1200)
     for part, rs in (("integrate", results), ("blocks", bres)):
